@@ -19,6 +19,7 @@ func init() {
 			"PV-ROLE label_format rename: Get/Set/Delete of one pair happen in one loop iteration",
 			"PV-ROLE drop/keep value matchers are built in the label flavour; LP-ERRPATH for every stage that flags __error__",
 			"LP-PIPE entryIterator.Next: nothing but the filters' verdicts removes a record",
+			"PV-API JSON integers are not converted through float64; Docker labels are stored under KeyToLabel(key); no unsafe.String",
 		},
 		NotDecided: []string{"'in time order' across streams depends on the storage delivering records in time order (C04)", "count equality with the number of matches is C01"},
 		Rules: func(r *Run) {
@@ -38,6 +39,9 @@ func init() {
 			ruleErrorPathKeepsLine(r, []string{"DurationLabelFilter", "BytesLabelFilter", "NumberLabelFilter", "IPLabelFilter", "JSONExtractor", "LogfmtExtractor", "UnpackExtractor", "LineFormat"}) // min(L, N) entries: a stage that fails on a line flags it and keeps it
 			ruleDropKeepMatchers(r)
 			ruleLPPipe(r)
+			ruleJSONIntegersExact(r)
+			ruleSanitiserSites(r) // the selector and the records name a container label the same way
+			ruleNoUnsafeStrings(r, []string{enginePkg, dockerlogPkg})
 		},
 	})
 }
